@@ -230,3 +230,7 @@ func Join() {}
 
 // Digits is a symbolic string of exactly n decimal digits.
 func Digits(name string, n int) string { return StringN(name, n) }
+
+// SymbolicClock makes time.Now return fresh, non-decreasing symbolic instants under the engine
+// (natively the real clock is used).
+func SymbolicClock() {}
